@@ -175,6 +175,37 @@ def fingerprint(root):
     return out
 
 
+def aux_objects(root):
+    """id -> description of every MUTABLE object hanging off the nodes of a tree besides the nodes themselves: the meta dict and
+    the lists / dicts / sets / expressions stored in it, the comments list, a type annotation that is not itself a node of the tree.
+    A copy must share none of these with its original ("editing either never affects the other")."""
+    Expr = _Expr()
+    nodes = walk(root, Expr)
+    own = {id(n) for n in nodes}
+    out = {}
+
+    def add(v, where, depth=0):
+        if isinstance(v, Expr):
+            for x in walk(v, Expr):
+                if id(x) not in own:
+                    out.setdefault(id(x), where + ":" + type(x).__name__)
+        elif isinstance(v, (list, dict, set)) and depth < 4:
+            out.setdefault(id(v), where + ":" + type(v).__name__)
+            for x in (v.values() if isinstance(v, dict) else v):
+                add(x, where, depth + 1)
+
+    for n in nodes:
+        if n._meta is not None:
+            out.setdefault(id(n._meta), type(n).__name__ + ".meta")
+            for k in n._meta:
+                add(n._meta[k], "%s.meta[%r]" % (type(n).__name__, k))
+        if n.comments is not None:
+            out.setdefault(id(n.comments), type(n).__name__ + ".comments")
+        if n._type is not None:
+            add(n._type, type(n).__name__ + ".type")
+    return out
+
+
 def structure(root):
     """Identity-free structural fingerprint (for comparing a copy with its original)."""
     Expr = _Expr()
